@@ -1,48 +1,44 @@
 """
-Bounded stand-in (G4) for C06 -- "changing time units rescales all outputs".
+Bounded stand-in (G4) for C07 -- "rescaling genome coordinates and mutation rate together leaves dates unchanged".
 
 Contract evaluated on the REAL tsdate entry point `tsdate.date` (all three methods):
 
-    let A = date(ts , mutation_rate=mu  , min_branch_length=b  , [population_size=N  , eps=e  , timepoints=tp  ])
-        B = date(ts', mutation_rate=mu/c, min_branch_length=b*c, [population_size=N*c, eps=e*c, timepoints=tp*c])
-    then   B.nodes_time == c * A.nodes_time, B.mutations_time == c * A.mutations_time,
-           every posterior mean (metadata "mn", fit object) scales by c, every posterior variance by c**2.
-
-ts' = ts except for inputs with historical (non-zero time) samples, where the *input* sample ages are
-quantities of time as well and are multiplied by c too (all input node times are; that is the only reading
-under which the statement can hold for such inputs).  Those inputs report under their own clause so the
-literal statement (ts' = ts) is what the generic clauses evaluate.
+    let ts_c = ts with sequence_length, edges.left, edges.right and sites.position multiplied by c  (c > 0)
+        A = date(ts  , mutation_rate=mu  , <options>)
+        B = date(ts_c, mutation_rate=mu/c, <the same options>)
+    then node times, mutation times, posterior means and posterior variances of B equal those of A.
 
 Clauses (one obligation each)
-    same-outcome                         both calls succeed, or both raise the same exception type
-    node-times-scale-by-c                returned nodes_time
-    mutation-times-scale-by-c            returned mutations_time
-    posterior-means-scale-by-c           node/mutation metadata "mn"; fit.node_posteriors()/mutation_posteriors()
-                                         means (variational); fit.posterior_mean (maximization); grid timepoints
-                                         (inside_outside)
-    posterior-variances-scale-by-c-squared   metadata "vr"; fit variances
-    dimensionless-outputs-unchanged      posterior grid probabilities (inside_outside); mutation -> node map and
-                                         the edge table (exact equality)
-    historical-samples-all-outputs-scale all of the above for inputs with non-zero sample ages (input times * c)
+    same-outcome                        both calls succeed, or both raise the same exception type
+    node-times-unchanged                returned nodes_time
+    mutation-times-unchanged            returned mutations_time
+    posterior-means-unchanged           node/mutation metadata "mn"; fit.node_posteriors()/mutation_posteriors() means
+                                        (variational); fit.posterior_mean (maximization); grid timepoints
+                                        (inside_outside)
+    posterior-variances-unchanged       metadata "vr"; fit variances
+    posterior-grid-and-placement-unchanged   posterior grid probabilities (inside_outside, within tolerance);
+                                        mutation -> node map and the (parent, child) columns of the edge table
+                                        (exact); output edge/site coordinates equal the scaled input coordinates
+                                        (exact)
     known-rescaling-discontinuous-at-tied-node-times
-                                         all of the above, for exactly those variational runs WITH time rescaling in
-                                         which two non-fixed nodes have posterior means equal to within 1e-9 relative
-                                         (in either run).  There the real code violates the property: see "Known
-                                         defect" below.  Every other case stays under the strict generic clauses.
+                                        all of the above, for exactly those variational runs WITH time rescaling in
+                                        which two non-fixed nodes have posterior means equal to within 1e-9 relative
+                                        (in either run).  There the real code violates the property: see "Known
+                                        defect" below.  Every other case stays under the strict generic clauses.
 
-Oracle: none needed beyond the statement -- the expected value of run B is c**k times the observed value of
-run A (k = 1 for times/means, 2 for variances, 0 for probabilities).  No tsdate code is used to form it.
+Oracle: none needed beyond the statement -- the expected value of run B is the observed value of run A.  The
+coordinate scaling is done here on the tables (no tsdate code involved).
 
 Input space
-    inputs  : msprime simulations with 3..7 haploid samples, 1..~6 local trees, 5..~60 mutations, <= ~20 nodes;
+    inputs  : msprime simulations with 3..7 haploid samples, 1..~6 local trees, 5..~80 mutations, <= 24 nodes;
               single-tree rooted shapes on 4 leaves incl. polytomies (rt.inputs.all_tree_shapes) with mutations;
               diploid individuals (singletons_phased False and True); historical samples (variational only, the
               discrete methods reject them).
-    configs : variational_gamma x {plain, match_segregating_sites, no rescaling, regularise_roots=False,
-              max_shape=20 (cap active), constr_iterations=3, large min_branch_length (constraint active)};
-              inside_outside / maximization x {logarithmic, linear} x {float population_size,
-              PopulationSizeHistory dict, user timepoints through build_prior_grid (lognorm, gamma),
-              outside_standardize=False, large eps, large min_branch_length}.
+    configs : variational_gamma x {plain, match_segregating_sites, large min_branch_length, max_shape=20, no
+              rescaling, regularise_roots=False, constr_iterations=3, 3 iterations, unphased singletons};
+              inside_outside / maximization x {logarithmic, linear} x {float population_size, two-epoch
+              PopulationSizeHistory, user timepoints through build_prior_grid (lognorm, gamma), big eps,
+              outside_standardize=False, 8 quantiles}.
     c       : quick {1e-3, 977.0, 1e6}; thorough adds {1/3, 2**-20, 7e-7, 12345.678, 2**30, 3.3e9}
     quick   : 16 inputs (8 sim, 4 shapes, 2 diploid, 2 historical), the first 5 variational and first 7
               discrete configurations, 3 scale factors                                   (not exhaustive)
@@ -50,31 +46,28 @@ Input space
               14 discrete), 9 scale factors                                              (not exhaustive)
 
 Tolerances (the statement says "up to floating-point tolerance")
-    discrete methods : rtol 1e-9.  The two runs perform the same operations on operands that differ only by
-                       the rounding of x*c and mu/c (c not a power of two); the grid posterior is a ratio of sums
-                       of products of Poisson pmfs, so the error stays within a few hundred ulp (observed <1e-14).
+    discrete methods : rtol 1e-9.  The runs differ only by the rounding of span*c and mu/c inside the Poisson
+                       rate dt*mu*span and inside the span-weighted mixture prior (weights span/total, both scaled);
+                       the grid posterior is a ratio of sums of products of pmfs (observed error < 1e-13).
     variational      : rtol 1e-6.  EP runs 25 sweeps through a Laplace-approximated 2F1 whose series/Newton loops
                        stop on *relative* tolerances (hypergeo._HYP2F1_TOL = 1e-10, em_reltol = 1e-8 in
-                       propagate_prior); rounding of the scaled operands can change an iteration count, so results
-                       agree only to about those tolerances (observed <= 2e-10 on 400-node inputs).
-    variances        : additionally an absolute allowance of 1e-12 * (scaled mean)**2, because a grid variance is
-                       formed as sum((mean - t)**2 * p), whose rounding error is relative to mean**2, not to itself.
-    exact (==)       : mutation -> node map, edge table.
+                       propagate_prior); a rounding difference can change an iteration count, so results agree only
+                       to about those tolerances (observed <= 1e-11 on these inputs).
+    variances        : additionally an absolute allowance of 1e-12 * mean**2, because a grid variance is formed as
+                       sum((mean - t)**2 * p), whose rounding error is relative to mean**2, not to itself.
+    exact (==)       : mutation -> node map, edge (parent, child), output coordinates.
 
-Known defect isolated in the known- clause (found by this check on the unchanged /repo)
+Known defect isolated in the known- clause (same one as in bounded_C06, found on the unchanged /repo)
     rescaling.mutational_timescale computes each interval's factor as z * sum(counts[i:j]) / sum(offset[i:j]) over
     the epochs between *distinct* node times, unweighted by epoch duration.  If two nodes carry identical data
     (e.g. two cherries with the same mutation count and span) their EP means agree up to rounding; whether they
     are bit-equal or one ulp apart decides whether a zero-length epoch exists, and that epoch enters the two sums
-    with full weight.  Scaling by a non-power-of-two c changes the rounding, so the outputs jump by O(1-10 %)
-    (sim(seed=124474,n=6,rec=6e-06), c=1e-3: node times differ by 10.2 %; direct call with nodes_time
-    [0,0,0,0,1,1+d,4]: d=0 -> 10.444, d=2.2e-16 -> 10.222).  Runs without rescaling, and the same inputs with
-    c a power of two, satisfy the property.
+    with full weight.  Scaling spans by a non-power-of-two c changes the rounding of span*mu, so outputs can jump by
+    O(1-10 %).  Runs without rescaling, and c a power of two, satisfy the property.
 
-NOT covered: inputs beyond ~20 nodes; default (None) min_branch_length / eps (the statement scales explicit
-values); population-size histories with more than two epochs; approximate (cached) priors; the recombination
-clock (unsupported by tsdate); extreme c for which times leave the normal double range; JIT-compiled kernels
-(the check runs the same Python source with NUMBA_DISABLE_JIT=1).
+NOT covered: inputs beyond 24 nodes; coordinate scalings that make distinct site positions collide or leave the
+double range; approximate (cached) priors; the recombination clock (unsupported by tsdate); inputs with migrations
+or a reference sequence; JIT-compiled kernels (the check runs the same Python source with NUMBA_DISABLE_JIT=1).
 """
 import logging
 import warnings
@@ -143,7 +136,7 @@ def _count_internal(shape):
 
 # ---------------------------------------------------------------------------------------------- configurations
 def vg_configs(kind, full):
-    """(label, kwargs with time-dimension entries marked).  Values are for c = 1."""
+    """(label, kwargs); the same kwargs are used for both runs."""
     base = {"rescaling_intervals": 3, "min_branch_length": 1e-6}
     cfgs = [
         ("vg/plain", dict(base)),
@@ -195,22 +188,15 @@ def discrete_configs(ne, full):
     return cfgs if full else cfgs[:7]
 
 
-def scale_popsize(n, c):
-    if isinstance(n, dict):
-        return {"population_size": [x * c for x in n["population_size"]],
-                "time_breaks": [x * c for x in n["time_breaks"]]}
-    return n * c
-
-
-def scale_kwargs(kw, c):
-    """Apply the statement's substitution to the time-dimensioned options."""
-    out = dict(kw)
-    for k in ("min_branch_length", "eps"):
-        if k in out:
-            out[k] = out[k] * c
-    if "population_size" in out:
-        out["population_size"] = scale_popsize(out["population_size"], c)
-    return out
+def scale_coordinates(ts, c):
+    """The statement's substitution: every genomic coordinate multiplied by c (tables edited directly)."""
+    tables = ts.dump_tables()
+    left, right, pos = tables.edges.left * c, tables.edges.right * c, tables.sites.position * c
+    tables.sequence_length = ts.sequence_length * c
+    tables.edges.left, tables.edges.right = left, right
+    tables.sites.position = pos
+    tables.build_index()
+    return tables.tree_sequence()
 
 
 # ---------------------------------------------------------------------------------------------- running + observing
@@ -249,7 +235,9 @@ def observe(out, fit, method):
            ("mutations_time", out.mutations_time.copy(), 1, "mut"),
            ("mutations_node", out.mutations_node.copy(), 0, "exact"),
            ("edges", np.column_stack([out.edges_left, out.edges_right, out.edges_parent, out.edges_child]), 0,
-            "exact")]
+            "exact"),
+           ("sites_position", out.sites_position.copy(), 0, "exact"),
+           ("sequence_length", np.array([out.sequence_length]), 0, "exact")]
     mn, vr = _metadata_moments(out.nodes(), out.num_nodes)
     if mn is not None:
         obs += [("node_metadata_mn", mn, 1, "mean"), ("node_metadata_vr", vr, 2, "var")]
@@ -297,9 +285,9 @@ def compare(name, got, want, rtol, mean_scale=None):
     return ok, float(np.max(err / denom))
 
 
-CLAUSE = {"node": "node-times-scale-by-c", "mut": "mutation-times-scale-by-c",
-          "mean": "posterior-means-scale-by-c", "var": "posterior-variances-scale-by-c-squared",
-          "prob": "dimensionless-outputs-unchanged", "exact": "dimensionless-outputs-unchanged"}
+CLAUSE = {"node": "node-times-unchanged", "mut": "mutation-times-unchanged",
+          "mean": "posterior-means-unchanged", "var": "posterior-variances-unchanged",
+          "prob": "posterior-grid-and-placement-unchanged", "exact": "posterior-grid-and-placement-unchanged"}
 
 
 KNOWN_TIES = "known-rescaling-discontinuous-at-tied-node-times"
@@ -316,15 +304,14 @@ def near_tied_free_nodes(obs, rel=1e-9):
     return bool(t.size > 1 and np.any(np.diff(t) <= rel * t[1:]))
 
 
-def check_pair(rep, key, desc, res_a, res_b, c, rtol, historical, rescaled=False):
+def check_pair(rep, key, desc, res_a, res_b, c, rtol, rescaled=False):
     ka, a = res_a
     kb, b = res_b
     same = (ka == kb) and (ka == "ok" or a.split(":")[0] == b.split(":")[0])
     known = None
     if rescaled and ((ka == "ok" and near_tied_free_nodes(a)) or (kb == "ok" and near_tied_free_nodes(b))):
         known = KNOWN_TIES
-    rep.case(known or ("historical-samples-all-outputs-scale" if historical else "same-outcome"), same, key=key,
-             input=desc,
+    rep.case(known or "same-outcome", same, key=key, input=desc,
              observed={"base": ka if ka == "ok" else a, "scaled": kb if kb == "ok" else b},
              expected="both succeed or both raise the same exception type", nontrivial=(ka == "ok"))
     if not same or ka != "ok":
@@ -338,16 +325,20 @@ def check_pair(rep, key, desc, res_a, res_b, c, rtol, historical, rescaled=False
                "fit_node_variance": "fit_node_mean", "fit_mutation_variance": "fit_mutation_mean"}
     per_clause = {}
     for n, (arr, p, g) in da.items():
-        want = arr * (c ** p) if p else arr
+        want = arr  # every time-valued or dimensionless output is expected unchanged ...
         got = db[n][0]
         if g == "exact":
-            if n == "edges":  # row order follows the output node times; compare as a set of rows
+            if n == "edges":  # ... and output coordinates are the scaled input coordinates, bit for bit
+                want = want * np.array([c, c, 1.0, 1.0])
+                # row order follows the output node times; compare as a set of rows
                 got, want = got[np.lexsort(got.T[::-1])], want[np.lexsort(want.T[::-1])]
+            elif n in ("sites_position", "sequence_length"):
+                want = want * c
             ok, err = bool(np.array_equal(got, want)), None
         else:
-            ms = da[mean_of[n]][0] * c if n in mean_of else None
+            ms = da[mean_of[n]][0] if n in mean_of else None
             ok, err = compare(n, got, want, rtol, ms)
-        cl = known or ("historical-samples-all-outputs-scale" if historical else CLAUSE[g])
+        cl = known or CLAUSE[g]
         st = per_clause.setdefault(cl, {"ok": True, "worst": {}, "bad": {}})
         st["worst"][n] = err
         if not ok:
@@ -356,7 +347,7 @@ def check_pair(rep, key, desc, res_a, res_b, c, rtol, historical, rescaled=False
                             "err": err}
     for cl, st in per_clause.items():
         rep.case(cl, st["ok"], key=key, input=desc, observed=st["bad"] if not st["ok"] else st["worst"],
-                 expected=f"run(c) == c**k * run(1) within rtol {rtol}")
+                 expected=f"run(coordinates*c, mu/c) == run(coordinates, mu) within rtol {rtol}")
 
 
 # ---------------------------------------------------------------------------------------------- driver
@@ -392,36 +383,28 @@ def run(req, rep):
     else:
         ins = small_inputs(rng, n_sim=8, n_shape=4, n_dip=2, n_hist=2)
     rep.space = ("tsdate.date on small simulated / enumerated-shape tree sequences x method configurations x "
-                 "time-unit scale factors c; run(c) compared with c**k * run(1)")
+                 "genome-coordinate scale factors c; run(coordinates*c, mu/c) compared with run(coordinates, mu)")
     rep.bound = (f"{len(ins)} inputs (<= 24 nodes, <= 80 mutations), c in {cs}, "
                  f"{'all' if thorough else 'first 5 variational / first 7 discrete'} configurations; seed {seed}")
     rep.exhaustive = False
     rep = DeferKnown(rep)
     for item in ins:
         ts, mu, ne, kind = item["ts"], item["mu"], item["ne"], item["kind"]
-        historical = kind == "historical"
         jobs = [(lab, "variational_gamma", kw, None) for lab, kw in vg_configs(kind, thorough)]
-        if not historical:
+        if kind != "historical":  # the discrete methods reject non-contemporary samples
             jobs += discrete_configs(ne, thorough)
         for lab, method, kw, prior_spec in jobs:
             rtol = 1e-6 if method == "variational_gamma" else 1e-9
             base = run_date(ts, method, mu, kw, prior_spec)
             for c in cs:
-                ts_c = inputs.scale_times(ts, c) if historical else ts
-                kw_c = scale_kwargs(kw, c)
-                ps_c = None
-                if prior_spec is not None:
-                    tp = prior_spec["timepoints"]
-                    ps_c = dict(prior_spec, population_size=scale_popsize(prior_spec["population_size"], c),
-                                timepoints=tp if isinstance(tp, int) else tp * c)
-                scaled = run_date(ts_c, method, mu / c, kw_c, ps_c)
+                scaled = run_date(scale_coordinates(ts, c), method, mu / c, kw, prior_spec)
                 key = f"{item['name']}|{lab}|c={c!r}"
                 desc = {"input": item["name"], "config": lab, "method": method, "c": c, "mutation_rate": mu,
                         "kwargs": bounded_api.jsonable(kw), "prior_spec": bounded_api.jsonable(prior_spec),
                         "ts": bounded_api.ts_to_json(ts)}
                 rescaled = (method == "variational_gamma" and kw.get("rescaling_iterations", 5) > 0
                             and kw.get("rescaling_intervals", 1000) > 0)
-                check_pair(rep, key, desc, base, scaled, c, rtol, historical, rescaled)
+                check_pair(rep, key, desc, base, scaled, c, rtol, rescaled)
 
     rep.flush()
 
